@@ -92,6 +92,19 @@ def task_ops(ctx, cfg, variant):
               g.div_cos_lat((x, y)), g.curl_cos_lat((x, y)), g.div_cos_lat((x, y), clip=False), g.curl_cos_lat((x, y), clip=False),
               sh.get_cos_lat_vector(x, y, g))
 
+    def filt(g, x):
+      from dinosaur import filtering, time_integration as ti
+      st = lambda f: (lambda u: f(u, u))
+      return (filtering.exponential_filter(g)(x), filtering.exponential_filter(g, attenuation=2.5, order=3, cutoff=0.4)(x),
+              filtering.horizontal_diffusion_filter(g, scale=0.01, order=2)(x),
+              st(ti.exponential_step_filter(g, dt=0.01, tau=0.02, order=2))(x),
+              st(ti.horizontal_diffusion_step_filter(g, dt=0.01, tau=0.05, order=2))(x),
+              ti.exponential_leapfrog_step_filter(g, dt=0.01, tau=0.03, order=1, cutoff=0.2)((x, x), (x, x))[1])
+
+    def both_filters(x):
+      return jax.tree_util.tree_map(from_fast, filt(gf, to_fast(x * gr.mask))), filt(gr, x * gr.mask)
+    prove_close(ctx, 'spectral_filters', both_filters, [x], sp, config=c)
+
     def both(x, y):
       # compared on the reference layout: what the fast class leaves in its padding rows/columns
       # (outside its mask) is not observable through the re-indexing
